@@ -1,7 +1,7 @@
 (** C19 - De-emphasis filters give the same output however the signal is split into blocks.
     Property theorems only (model: Filters.v, lemmas: FiltersProofs.v).  No bound on signal
     length, number of blocks, number of taps/coefficients or their values. *)
-From SE Require Import Base Filters FiltersProofs.
+From SE Require Import Base Filters FiltersProofs FiltersMoreProofs.
 
 (** The circular buffer of iir.pyx represents the list of its N most recent pushes (newest
     first, zero-padded initial contents behind them); inner_prod and fill read that window
@@ -110,28 +110,65 @@ Theorem iir16_outputs_saturated :
 Proof. exact chick_iir_output_range. Qed.
 Print Assumptions iir16_outputs_saturated.
 
-(** NOT proved (design item iir16_no_nan): that the recurrence never produces NaN for int16
-    inputs and the preset coefficients (an interval argument over the float recurrence). *)
-Definition iir16_no_nan_statement : Prop :=
+(** The recurrence of the three ChickenSys IIR presets never leaves the finite doubles on int16
+    input (so the saturation above applies to every output): a new preset filter fed any int16
+    block ends with a state without NaN (x =? x holds exactly for non-NaN doubles; infinities
+    are excluded too, see iir16_block_stays_bounded).  Magnitude analysis on SpecFloat: every
+    stored output is brought below 2^15 by _c_bound, inputs are below 2^16, the coefficients
+    below 1, so each new value is below 2^24, far from overflow. *)
+Theorem iir16_no_nan :
   forall n f l y g, In n [1; 2; 3] -> preset n = Ok (FI f) -> arr_ok (AI l) ->
     iir_process f (AI l) = Ok (y, g) -> Forall (fun v => PrimFloat.eqb v v = true) (i_yprev g).
+Proof. exact iir16_no_nan_lemma. Qed.
+Print Assumptions iir16_no_nan.
 
-(** Saturation, ChickenSys FIR (_c_bound_and_fix): the result is within the int16 limits and,
-    when neither clamp fires, it is exactly round-half-away(x): the (short) cast never wraps.
-    Full statement (result = clamp of round x) kept visible; what is missing for it is only that
-    x > 32767.0 implies round(x) >= 32767 and x < -32768.0 implies round(x) <= -32768 (lower
-    bounds on normal mantissas), i.e. that the clamp branches agree with clamping the rounded value. *)
-Definition fir16_clamp_statement : Prop :=
+(** One sample (chick_raw = ((0 + c0*x) + c1*a - (0 + nc2*v)) / 1, the kernel's expression for
+    B = [c0; c1], A = [1; nc2]): coefficients below 1 (fb 0), input samples below 2^16, previous
+    output below 2^15 (fb K x: x is a zero or a finite double of magnitude < 2^K) give a finite
+    value below 2^24 before _c_bound and below 2^15 after it. *)
+Theorem iir16_step_bounded :
+  forall c0 c1 nc2 x a v, fb 0 c0 -> fb 0 c1 -> fb 0 nc2 -> fb 16 x -> fb 16 a -> fb 15 v ->
+    fb 24 (chick_raw c0 c1 nc2 x a v) /\ fb 15 (c_bound (chick_raw c0 c1 nc2 x a v)).
+Proof. exact iir16_step_finite. Qed.
+Print Assumptions iir16_step_bounded.
+
+(** Any block, any bounded state of a filter of the presets' shape (two B taps and one feedback
+    tap below 1, A[0] = 1): the new state is bounded again and every value handed to the final
+    cast is a finite double below 2^15. *)
+Theorem iir16_block_stays_bounded :
+  forall f l y g, chick_state_ok f -> Forall i16 l -> iir_process f (AI l) = Ok (y, g) ->
+    chick_state_ok g /\ exists o, y = AI (map c_fix_int o) /\ Forall (fb 15) o.
+Proof. exact iir16_block_finite. Qed.
+Print Assumptions iir16_block_stays_bounded.
+
+(** ... hence after ANY history of process / get_remaining / reset_state calls on int16 blocks,
+    the saved state of an IIR preset contains no NaN. *)
+Theorem iir16_history_no_nan :
+  forall n f ops r, In n [1; 2; 3] -> preset n = Ok (FI f) -> Forall op_ok ops ->
+    run_ops (FI f) ops = Ok r ->
+    exists g, snd r = FI g /\ Forall (fun v => PrimFloat.eqb v v = true) (i_xprev g ++ i_yprev g).
+Proof. exact iir16_history_no_nan_lemma. Qed.
+Print Assumptions iir16_history_no_nan.
+
+(** Saturation, ChickenSys FIR (_c_bound_and_fix): for every finite double x = (-1)^s m 2^e the
+    result is round-half-away(x) clamped to the int16 limits (the clamp branches fire exactly
+    when the rounded value is outside, and the (short) cast never wraps). *)
+Theorem fir16_clamp :
   forall x s m e, FloatOps.Prim2SF x = SpecFloat.S754_finite s m e ->
     c_bound_and_fix x = Z.max (-32768) (Z.min 32767 (sgn s (round_away_mag m e))).
-Theorem fir16_saturates_partial :
+Proof. exact fir16_clamp_lemma. Qed.
+Print Assumptions fir16_clamp.
+
+(** ... in particular the result is within the int16 limits for EVERY double (NaN, infinities
+    included) and is exactly round-half-away(x) when neither clamp fires. *)
+Theorem fir16_saturates :
   forall x,
     c_bound_and_fix x =
       (if PrimFloat.ltb f32767 x then 32767 else if PrimFloat.ltb x fm32768 then -32768
        else round_away_sf (FloatOps.Prim2SF x)) /\
     -32768 <= c_bound_and_fix x <= 32767.
 Proof. exact fir16_saturates_lemma. Qed.
-Print Assumptions fir16_saturates_partial.
+Print Assumptions fir16_saturates.
 
 (** ... hence every sample of the ChickenSys convolution is within the int16 limits. *)
 Theorem fir16_outputs_saturated :
@@ -156,3 +193,15 @@ Example fir_blocks_example :
     stream (FF f) [AI [1; 2]; AI [3; 4; 5]] = stream (FF f) [AI [1; 2; 3; 4; 5]] /\
     exists g, stream (FF f) [AI [1; 2]; AI [3; 4; 5]] = Ok (AI [4; 10; 16; 22], AI [22], g).
 Proof. eexists. split; [reflexivity|]. split; [vm_compute; reflexivity|]. eexists. vm_compute. reflexivity. Qed.
+
+(** ... and those of the IIR theorems: the three IIR presets accept an int16 block with the
+    extreme samples (so iir16_no_nan is not vacuous), and saturate on it. *)
+Example iir16_no_nan_example :
+  forall n, In n [1; 2; 3] ->
+    exists f y g, preset n = Ok (FI f) /\ chick_state_ok f /\
+      iir_process f (AI [32767; 32767; -32768; -32768; 1]) = Ok (AI y, g) /\ length y = 5%nat.
+Proof.
+  intros n Hn. pose proof (preset_iir_ok n) as Hok.
+  destruct Hn as [<-|[<-|[<-|[]]]]; (eexists; eexists; eexists; split; [reflexivity|]; split;
+    [apply Hok; [cbn; tauto | reflexivity] |]; split; [vm_compute; reflexivity | reflexivity]).
+Qed.
